@@ -255,7 +255,7 @@ func encTVars(vars []envVar) string {
 // oracles for C01 (well-formed result of the inferred type on every back end), C02 (failure
 // classes), C03 (back ends agree).
 func evalCases(eng *engine, vars []envVar, vals map[string]*val.Val, src string, tag string) []Case {
-	if guardBegin("run "+src) {
+	if guardBegin("run " + src) {
 		return []Case{crashCase("run " + src)}
 	}
 	defer guardEnd()
